@@ -277,7 +277,7 @@ def menu(proc, seed, tier="quick", ops=None, include_unsafe=False):
                 add("add_unsafe_guard", b, c)
         for cal in seed.callees:
             if cal != "nop":
-                add("replace", b, NS(cal))
+                add("replace", b, NS(cal), True)
         # stage_mem windows over every numeric buffer visible by name
         for wstr, nm in stage_windows(root, site, lst[lo:hi], tier):
             add("stage_mem", b, wstr, nm + "_stg")
